@@ -472,6 +472,76 @@ def clear_degree_cache() -> None:
 # =============================================================================
 
 
+def _constant_value(expr: Expression) -> Optional[float]:
+    """Value of a sub-expression that does not depend on any variable.
+
+    Mirrors the degree-0 cases of the degree rules: constants, their sums,
+    differences, products, quotients by a constant, natural powers, negation,
+    and ``e ** 0``. Returns None for anything else.
+    """
+    from optyx.core.vectors import LinearCombination, VectorPowerSum
+
+    if isinstance(expr, Constant):
+        value = expr.value
+        if isinstance(value, np.ndarray) and value.ndim > 0:
+            return None
+        return float(value)
+
+    if isinstance(expr, UnaryOp):
+        if expr.op == "neg":
+            inner = _constant_value(expr.operand)
+            return None if inner is None else -inner
+        return None
+
+    if isinstance(expr, BinaryOp):
+        if expr.op == "**":
+            if not isinstance(expr.right, Constant):
+                return None
+            exp_val = expr.right.value
+            if not isinstance(exp_val, numbers.Number):
+                return None
+            exp_nat = _natural_power(exp_val)
+            if exp_nat is None:
+                return None
+            if exp_nat == 0:
+                return 1.0
+            base = _constant_value(expr.left)
+            return None if base is None else base**exp_nat
+        left = _constant_value(expr.left)
+        if left is None:
+            return None
+        if expr.op == "/":
+            if not isinstance(expr.right, Constant):
+                return None
+            return left / float(expr.right.value)
+        right = _constant_value(expr.right)
+        if right is None:
+            return None
+        if expr.op == "+":
+            return left + right
+        if expr.op == "-":
+            return left - right
+        if expr.op == "*":
+            return left * right
+        return None
+
+    if isinstance(expr, VectorPowerSum):
+        if _natural_power(expr.power) == 0:
+            return float(len(expr.vector._variables))
+        return None
+
+    if isinstance(expr, LinearCombination) and hasattr(expr.vector, "_expressions"):
+        total = 0.0
+        for i, elem in enumerate(expr.vector._expressions):
+            value_i = _constant_value(elem)
+            if value_i is None:
+                return None
+            total += float(expr.coefficients[i]) * value_i
+        return total
+
+    return None
+
+
 def extract_linear_coefficient(expr: Expression, var: Variable) -> float:
     """Extract the linear coefficient for a variable from an expression.
 
@@ -509,7 +579,7 @@ def extract_linear_coefficient(expr: Expression, var: Variable) -> float:
 
 def _extract_coefficient_impl(expr: Expression, var: Variable) -> float:
     """Recursive coefficient extraction."""
-    from optyx.core.vectors import LinearCombination, VectorSum
+    from optyx.core.vectors import LinearCombination, VectorSum, VectorPowerSum
 
     # Constant - contributes 0 to variable coefficient
     if isinstance(expr, Constant):
@@ -544,6 +614,14 @@ def _extract_coefficient_impl(expr: Expression, var: Variable) -> float:
                 return 1.0
         return 0.0
 
+    # VectorPowerSum: sum(x ** 1) is sum(x); sum(x ** 0) is a constant
+    if isinstance(expr, VectorPowerSum):
+        if _natural_power(expr.power) == 1:
+            for v in expr.vector._variables:
+                if v.name == var.name:
+                    return 1.0
+        return 0.0
+
     # Binary operations
     if isinstance(expr, BinaryOp):
         if expr.op == "+":
@@ -557,17 +635,13 @@ def _extract_coefficient_impl(expr: Expression, var: Variable) -> float:
             ) - _extract_coefficient_impl(expr.right, var)
 
         if expr.op == "*":
-            # One side must be constant for linear expressions
-            if isinstance(expr.left, Constant):
-                return float(expr.left.value) * _extract_coefficient_impl(
-                    expr.right, var
-                )
-            if isinstance(expr.right, Constant):
-                return _extract_coefficient_impl(expr.left, var) * float(
-                    expr.right.value
-                )
-            # For linear expressions, at least one side must be constant
-            # This fallback handles edge cases where constants are nested
+            # One side must be constant-valued for linear expressions
+            left_const = _constant_value(expr.left)
+            if left_const is not None:
+                return left_const * _extract_coefficient_impl(expr.right, var)
+            right_const = _constant_value(expr.right)
+            if right_const is not None:
+                return _extract_coefficient_impl(expr.left, var) * right_const
             return 0.0
 
         if expr.op == "/":
@@ -627,7 +701,7 @@ def extract_constant_term(expr: Expression) -> float:
 
 def _extract_constant_impl(expr: Expression) -> float:
     """Recursive constant term extraction."""
-    from optyx.core.vectors import LinearCombination, VectorSum
+    from optyx.core.vectors import LinearCombination, VectorSum, VectorPowerSum
 
     if isinstance(expr, Constant):
         return float(expr.value)
@@ -635,8 +709,21 @@ def _extract_constant_impl(expr: Expression) -> float:
     if isinstance(expr, Variable):
         return 0.0
 
-    # Vector expressions have no constant term (purely linear)
+    # c @ (vector of expressions): constants of the elements, weighted
+    if isinstance(expr, LinearCombination) and hasattr(expr.vector, "_expressions"):
+        total = 0.0
+        for i, elem in enumerate(expr.vector._expressions):
+            total += float(expr.coefficients[i]) * _extract_constant_impl(elem)
+        return total
+
+    # Reductions over plain vector variables have no constant term
     if isinstance(expr, (LinearCombination, VectorSum)):
+        return 0.0
+
+    # sum(x ** 0) is the constant n; sum(x ** 1) has no constant term
+    if isinstance(expr, VectorPowerSum):
+        if _natural_power(expr.power) == 0:
+            return float(len(expr.vector._variables))
         return 0.0
 
     if isinstance(expr, BinaryOp):
@@ -651,11 +738,13 @@ def _extract_constant_impl(expr: Expression) -> float:
             )
 
         if expr.op == "*":
-            # c * expr or expr * c
-            if isinstance(expr.left, Constant):
-                return float(expr.left.value) * _extract_constant_impl(expr.right)
-            if isinstance(expr.right, Constant):
-                return _extract_constant_impl(expr.left) * float(expr.right.value)
+            # c * expr or expr * c (c any constant-valued sub-expression)
+            left_const = _constant_value(expr.left)
+            if left_const is not None:
+                return left_const * _extract_constant_impl(expr.right)
+            right_const = _constant_value(expr.right)
+            if right_const is not None:
+                return _extract_constant_impl(expr.left) * right_const
             return 0.0
 
         if expr.op == "/":
@@ -668,6 +757,11 @@ def _extract_constant_impl(expr: Expression) -> float:
                 exp = int(expr.right.value)
                 if exp == 0:
                     return 1.0  # x**0 = 1
+                if exp == 1:
+                    return _extract_constant_impl(expr.left)
+                value = _constant_value(expr)
+                if value is not None:
+                    return value  # c**k
             return 0.0
 
     if isinstance(expr, UnaryOp):
@@ -847,7 +941,12 @@ def _extract_all_coefficients_impl(
         result: Output array to accumulate coefficients into.
         multiplier: Current coefficient multiplier from parent expressions.
     """
-    from optyx.core.vectors import LinearCombination, VectorSum, VectorVariable
+    from optyx.core.vectors import (
+        LinearCombination,
+        VectorSum,
+        VectorVariable,
+        VectorPowerSum,
+    )
 
     # Constant - no variable coefficients
     if isinstance(expr, Constant):
@@ -866,6 +965,15 @@ def _extract_all_coefficients_impl(
             idx = var_index.get(var.name)
             if idx is not None:
                 result[idx] += multiplier
+        return
+
+    # VectorPowerSum: sum(x ** 1) is sum(x); sum(x ** 0) is a constant
+    if isinstance(expr, VectorPowerSum):
+        if _natural_power(expr.power) == 1:
+            for var in expr.vector._variables:
+                idx = var_index.get(var.name)
+                if idx is not None:
+                    result[idx] += multiplier
         return
 
     # LinearCombination: c @ x - coefficient is c[i] * multiplier
@@ -895,15 +1003,17 @@ def _extract_all_coefficients_impl(
             return
 
         if expr.op == "*":
-            # One side must be constant for linear expressions
-            if isinstance(expr.left, Constant):
+            # One side must be constant-valued for linear expressions
+            left_const = _constant_value(expr.left)
+            if left_const is not None:
                 _extract_all_coefficients_impl(
-                    expr.right, var_index, result, multiplier * float(expr.left.value)
+                    expr.right, var_index, result, multiplier * left_const
                 )
                 return
-            if isinstance(expr.right, Constant):
+            right_const = _constant_value(expr.right)
+            if right_const is not None:
                 _extract_all_coefficients_impl(
-                    expr.left, var_index, result, multiplier * float(expr.right.value)
+                    expr.left, var_index, result, multiplier * right_const
                 )
                 return
             # Both sides non-constant - no linear contribution
